@@ -100,6 +100,11 @@ fn gen_family(fam: &str, seed: u64, n: usize, out: &mut impl Write) {
                 writeln!(out, "{{\"pkt\":{}}}", jbytes(&p)).unwrap();
             }
         }
+        "compressfam" => {
+            for p in gen::compress_families() {
+                writeln!(out, "{{\"pkt\":{}}}", jbytes(&p)).unwrap();
+            }
+        }
         "adversarial" => {
             for p in gen::adversarial_packets(&mut r, n) {
                 writeln!(out, "{{\"pkt\":{}}}", jbytes(&p)).unwrap();
